@@ -1,9 +1,249 @@
-import SynthVerif.Model.Adsr
-import SynthVerif.Model.Lfo
-import SynthVerif.Model.Quantizer
-import SynthVerif.Model.Midi
-import SynthVerif.Model.Glide
 import SynthVerif.Model.Ribbon
+/-!
+# C15 — Ribbon: a press is reported only after an uninterrupted capture time
+
+Specification (`Spec`): `run` = length of the current unbroken suffix of in-range samples; a press is reported
+exactly while `run ≥ L`, `L = capacity + max ignore 1 - 1` (the whole capture buffer filled after the settling
+samples were skipped); `just_pressed` / `just_released` are latches of the two changes of `finger_is_pressing()`.
+`refines`: for every capacity ≥ 1, every ignore/discard count with `discard ≤ capacity`, and every history of
+samples and edge reads, the controller never panics and `finger_is_pressing()`, `finger_just_pressed()`,
+`finger_just_released()` agree with the specification.  In particular in-range samples separated by an
+out-of-range sample never add up (`run` restarts from 0), and a press turns false on the first out-of-range sample.
+-/
 namespace C15
-theorem placeholder_to_be_replaced : True := trivial
+open F32
+
+inductive Ev
+  | poll (x : F32)
+  | readPressed
+  | readReleased
+
+structure Spec where
+  run : Nat := 0
+  pressing : Bool := false
+  jp : Bool := false
+  jr : Bool := false
+deriving Repr, DecidableEq
+
+/-- one sample: `inRange` says whether it is below the finger-press boundary -/
+def Spec.sample (L : Nat) (s : Spec) (inRange : Bool) : Spec :=
+  let run := if inRange then s.run + 1 else 0
+  let p := inRange && decide (L ≤ run)
+  { run := run, pressing := p, jp := s.jp || (!s.pressing && p), jr := s.jr || (s.pressing && !p) }
+
+def Spec.step (L : Nat) (s : Spec) (inRange : F32 → Bool) : Ev → Spec × Option Bool
+  | .poll x => (s.sample L (inRange x), none)
+  | .readPressed => ({ s with jp := false }, some s.jp)
+  | .readReleased => ({ s with jr := false }, some s.jr)
+
+/-- model step; `none` = panic -/
+def stepEv (r : Ribbon) : Ev → Option (Ribbon × Option Bool)
+  | .poll x => (r.poll x).map fun r' => (r', none)
+  | .readPressed => let (b, r') := r.readJustPressed; some (r', some b)
+  | .readReleased => let (b, r') := r.readJustReleased; some (r', some b)
+
+/-- run a history: `none` = some call panicked; otherwise the final state and the values the reads returned -/
+def run (r : Ribbon) : List Ev → Option (Ribbon × List Bool)
+  | [] => some (r, [])
+  | e :: es => match stepEv r e with
+    | none => none
+    | some (r', o) => match run r' es with
+      | none => none
+      | some (r'', os) => some (r'', match o with | some b => b :: os | none => os)
+
+def specRun (L : Nat) (inRange : F32 → Bool) (s : Spec) : List Ev → Spec × List Bool
+  | [] => (s, [])
+  | e :: es =>
+    let (s', o) := s.step L inRange e
+    let (s'', os) := specRun L inRange s' es
+    (s'', match o with | some b => b :: os | none => os)
+
+/-- the length of an unbroken run after which a press is reported -/
+def pressLen (r : Ribbon) : Nat := r.buff.capacity + max r.ignore 1 - 1
+
+structure Rel (r : Ribbon) (s : Spec) : Prop where
+  cap : 1 ≤ r.buff.capacity
+  disc : r.discard ≤ r.buff.capacity
+  recv : r.received = min s.run r.ignore
+  writ : r.written = min (s.run + 1 - max r.ignore 1) r.buff.capacity
+  press : r.pressing = s.pressing
+  pspec : s.pressing = decide (0 < s.run ∧ pressLen r ≤ s.run)
+  jp : r.justPressed = s.jp
+  jr : r.justReleased = s.jr
+
+theorem nat_min_eq (a b : Nat) : Nat.min a b = min a b := rfl
+theorem nat_max_eq (a b : Nat) : Nat.max a b = max a b := rfl
+
+theorem ring_write_capacity (g : Ring) (x : F32) : (g.write x).capacity = g.capacity := by
+  unfold Ring.write Ring.capacity
+  dsimp only
+  split <;> simp [List.length_set]
+
+/-- closed form of an in-range `poll` -/
+private theorem poll_in (r : Ribbon) (x : F32) (hin : lt x r.boundary = true) (hd : r.discard ≤ r.buff.capacity) :
+    ∃ r', r.poll x = some r' ∧
+      r'.received = min (r.received + 1) r.ignore ∧
+      r'.written = (if r.ignore ≤ min (r.received + 1) r.ignore then min (r.written + 1) r.buff.capacity else r.written) ∧
+      r'.pressing = (r.pressing || (decide (r.ignore ≤ min (r.received + 1) r.ignore) &&
+                      decide (min (r.written + 1) r.buff.capacity = r.buff.capacity))) ∧
+      r'.justPressed = (r.justPressed || (!r.pressing && (decide (r.ignore ≤ min (r.received + 1) r.ignore) &&
+                      decide (min (r.written + 1) r.buff.capacity = r.buff.capacity)))) ∧
+      r'.justReleased = r.justReleased ∧ r'.boundary = r.boundary ∧ r'.ignore = r.ignore ∧
+      r'.discard = r.discard ∧ r'.buff.capacity = r.buff.capacity := by
+  have hwc := ring_write_capacity r.buff x
+  unfold Ribbon.poll
+  simp only [hin, ↓reduceIte]
+  by_cases hign : r.ignore ≤ min (r.received + 1) r.ignore
+  · simp only [hign, ↓reduceIte, hwc, decide_true, Bool.true_and]
+    by_cases hfull : min (r.written + 1) r.buff.capacity = r.buff.capacity
+    · have hb : (min (r.written + 1) r.buff.capacity == r.buff.capacity) = true := by simpa using hfull
+      have hnd : ¬ (r.buff.capacity < r.discard) := by omega
+      simp only [hb, ↓reduceIte, hnd, hfull, decide_true]
+      cases hp : r.pressing <;> simp [hwc]
+    · have hb : (min (r.written + 1) r.buff.capacity == r.buff.capacity) = false := by simpa using hfull
+      simp only [hb, Bool.false_eq_true, ↓reduceIte, hfull, decide_false]
+      simp [hwc]
+  · simp only [hign, ↓reduceIte, decide_false, Bool.false_and]
+    simp
+
+/-- closed form of an out-of-range `poll` -/
+private theorem poll_out (r : Ribbon) (x : F32) (hin : lt x r.boundary = false) :
+    ∃ r', r.poll x = some r' ∧ r'.received = 0 ∧ r'.written = 0 ∧ r'.pressing = false ∧
+      r'.justPressed = r.justPressed ∧ r'.justReleased = (r.justReleased || r.pressing) ∧
+      r'.boundary = r.boundary ∧ r'.ignore = r.ignore ∧ r'.discard = r.discard ∧
+      r'.buff.capacity = r.buff.capacity := by
+  unfold Ribbon.poll
+  simp only [hin, Bool.false_eq_true, ↓reduceIte]
+  cases hp : r.pressing <;> simp [hp]
+
+private theorem poll_rel {r : Ribbon} {s : Spec} (h : Rel r s) (x : F32) :
+    ∃ r', r.poll x = some r' ∧ Rel r' (s.sample (pressLen r) (lt x r.boundary)) ∧
+      r'.boundary = r.boundary ∧ pressLen r' = pressLen r := by
+  obtain ⟨hcap, hdisc, hrecv, hwrit, hpress, hpspec, hjp, hjr⟩ := h
+  by_cases hin : lt x r.boundary = true
+  · obtain ⟨r', hr', e1, e2, e3, e4, e5, e6, e7, e8, e9⟩ := poll_in r x hin hdisc
+    refine ⟨r', hr', ?_, e6, by simp [pressLen, e7, e9]⟩
+    have hL : pressLen r' = pressLen r := by simp [pressLen, e7, e9]
+    simp only [hin, Spec.sample, ↓reduceIte, Bool.true_and]
+    -- the arithmetic core: the write counter reaches the capacity exactly when the run reaches `pressLen`
+    have key : (r.pressing || (decide (r.ignore ≤ min (r.received + 1) r.ignore) &&
+                      decide (min (r.written + 1) r.buff.capacity = r.buff.capacity))) =
+               decide (pressLen r ≤ s.run + 1) := by
+      rw [hpress, hpspec, hrecv, hwrit]
+      unfold pressLen
+      rw [Bool.eq_iff_iff]
+      simp only [Bool.or_eq_true, Bool.and_eq_true, decide_eq_true_eq]
+      omega
+    refine ⟨?_, ?_, ?_, ?_, ?_, ?_, ?_, ?_⟩ <;> (try dsimp only)
+    · rw [e9]; exact hcap
+    · rw [e8, e9]; exact hdisc
+    · rw [e1, e7, hrecv]; omega
+    · rw [e2, e7, e9, hrecv, hwrit]; split <;> omega
+    · rw [e3, key]
+    · simp only [decide_eq_decide]; rw [hL]; omega
+    · rw [e4, hjp, ← hpress]
+      have : (decide (r.ignore ≤ min (r.received + 1) r.ignore) &&
+          decide (min (r.written + 1) r.buff.capacity = r.buff.capacity)) =
+          (!r.pressing && decide (pressLen r ≤ s.run + 1) || r.pressing && (decide (r.ignore ≤ min (r.received + 1) r.ignore) &&
+          decide (min (r.written + 1) r.buff.capacity = r.buff.capacity))) := by
+        rw [← key]; cases r.pressing <;> simp
+      cases hp : r.pressing <;> simp [hp] at key ⊢ <;> simp [key]
+    · rw [e5, hjr, ← hpress]
+      have : r.pressing = true → decide (pressLen r ≤ s.run + 1) = true := by
+        intro hp; rw [← key, hp]; rfl
+      cases hp : r.pressing
+      · simp
+      · simp [this hp]
+  · have hin' : lt x r.boundary = false := by simpa using hin
+    obtain ⟨r', hr', e1, e2, e3, e4, e5, e6, e7, e8, e9⟩ := poll_out r x hin'
+    refine ⟨r', hr', ?_, e6, by simp [pressLen, e7, e9]⟩
+    simp only [hin', Spec.sample, Bool.false_eq_true, ↓reduceIte, Bool.false_and]
+    refine ⟨?_, ?_, ?_, ?_, ?_, ?_, ?_, ?_⟩ <;> (try dsimp only)
+    · rw [e9]; exact hcap
+    · rw [e8, e9]; exact hdisc
+    · rw [e1]; simp
+    · rw [e2]; omega
+    · rw [e3]
+    · simp
+    · rw [e4, hjp]; simp
+    · rw [e5, hjr, hpress]; simp
+
+private theorem step_rel {r : Ribbon} {s : Spec} (h : Rel r s) (e : Ev) :
+    ∃ r' o, stepEv r e = some (r', o) ∧ Rel r' (s.step (pressLen r) (fun x => lt x r.boundary) e).1 ∧
+      o = (s.step (pressLen r) (fun x => lt x r.boundary) e).2 ∧ r'.boundary = r.boundary ∧ pressLen r' = pressLen r := by
+  cases e with
+  | poll x =>
+    obtain ⟨r', hr', hrel, hb, hL⟩ := poll_rel h x
+    exact ⟨r', none, by simp [stepEv, hr'], hrel, rfl, hb, hL⟩
+  | readPressed =>
+    obtain ⟨hcap, hdisc, hrecv, hwrit, hpress, hpspec, hjp, hjr⟩ := h
+    refine ⟨_, _, rfl, ?_, by simp [Spec.step, Ribbon.readJustPressed, hjp], rfl, rfl⟩
+    exact ⟨hcap, hdisc, hrecv, hwrit, hpress, hpspec, rfl, hjr⟩
+  | readReleased =>
+    obtain ⟨hcap, hdisc, hrecv, hwrit, hpress, hpspec, hjp, hjr⟩ := h
+    refine ⟨_, _, rfl, ?_, by simp [Spec.step, Ribbon.readJustReleased, hjr], rfl, rfl⟩
+    exact ⟨hcap, hdisc, hrecv, hwrit, hpress, hpspec, hjp, rfl⟩
+
+private theorem run_rel {r : Ribbon} {s : Spec} (h : Rel r s) (es : List Ev) :
+    ∃ r' os, run r es = some (r', os) ∧
+      os = (specRun (pressLen r) (fun x => lt x r.boundary) s es).2 ∧
+      Rel r' (specRun (pressLen r) (fun x => lt x r.boundary) s es).1 := by
+  induction es generalizing r s with
+  | nil => exact ⟨r, [], rfl, rfl, h⟩
+  | cons e es ih =>
+    obtain ⟨r1, o, h1, hrel, ho, hb, hL⟩ := step_rel h e
+    obtain ⟨r2, os, h2, hos, hrel2⟩ := ih hrel
+    rw [hb, hL] at hos hrel2
+    subst ho
+    subst hos
+    refine ⟨r2, (specRun (pressLen r) (fun x => lt x r.boundary) s (e :: es)).2, ?_, rfl, ?_⟩
+    · simp only [run, h1, h2, specRun]
+    · simpa [specRun] using hrel2
+
+/-- a freshly constructed controller satisfies the coupling with the initial specification state -/
+theorem rel_new {cap : Nat} {sr sp dr pu : F32} {r : Ribbon} (h : Ribbon.new cap sr sp dr pu = some r)
+    (hcap : 1 ≤ cap) (hdisc : r.discard ≤ cap) : Rel r {} := by
+  unfold Ribbon.new at h
+  split at h
+  · simp only [Option.some.injEq] at h
+    subst h
+    constructor <;> simp_all [Ring.new, Ring.capacity, pressLen]
+    omega
+  · simp at h
+
+/-- **C15, main statement.**  For every capacity ≥ 1 whose buffer is at least as long as the finger-lift allowance,
+every history of samples and edge reads runs without panic, and every read returns what the run-length
+specification says; the final `finger_is_pressing()` is `run ≥ pressLen` for the current unbroken run. -/
+theorem refines {cap : Nat} {sr sp dr pu : F32} {r : Ribbon} (h : Ribbon.new cap sr sp dr pu = some r)
+    (hcap : 1 ≤ cap) (hdisc : r.discard ≤ cap) (es : List Ev) :
+    ∃ r' os, run r es = some (r', os) ∧
+      os = (specRun (pressLen r) (fun x => lt x r.boundary) {} es).2 ∧
+      r'.pressing = (specRun (pressLen r) (fun x => lt x r.boundary) {} es).1.pressing := by
+  obtain ⟨r', os, h1, h2, h3⟩ := run_rel (rel_new h hcap hdisc) es
+  exact ⟨r', os, h1, h2, h3.press⟩
+
+/-! ### the specification says what the property text says -/
+
+/-- an out-of-range sample ends the press and restarts the count: earlier samples never add up -/
+theorem spec_out_of_range (L : Nat) (s : Spec) : (s.sample L false).run = 0 ∧ (s.sample L false).pressing = false := by
+  simp [Spec.sample]
+
+/-- in range: the press is reported exactly when the unbroken run has reached `L` -/
+theorem spec_in_range (L : Nat) (s : Spec) :
+    (s.sample L true).run = s.run + 1 ∧ (s.sample L true).pressing = decide (L ≤ s.run + 1) := by
+  simp [Spec.sample]
+
+/-- the buffer sizes produced by the provided helper always satisfy the hypotheses of `refines` -/
+theorem helper_capacity_ok (sr c d : Nat) (hc : Ribbon.sampleRateToCapacity sr = some c)
+    (hd : sr * Gen.ribbonRiseUsec / 1000000 = d) : 1 ≤ c ∧ d < c := by
+  unfold Ribbon.sampleRateToCapacity at hc
+  split at hc
+  · simp at hc
+  · simp only [Option.some.injEq] at hc
+    omega
+
+/-- non-vacuity: capacity 3, ignore 1: the third in-range sample in a row reports the press; a glitch restarts -/
+example : (specRun 3 (fun x => lt x one) {} [.poll zero, .poll zero, .poll one, .poll zero, .poll zero, .readPressed,
+    .poll zero, .readPressed, .readPressed]).2 = [false, true, false] := by decide
+
 end C15
